@@ -347,6 +347,10 @@ impl Check for C10 {
         {
             return RunReport::default();
         }
+        // as generated, the first connection presents a session cookie only in the unreadable-session case
+        if c.session_cookie.is_some() != sc.unreadable_session {
+            return RunReport::default();
+        }
         // the first connection must be one that gets routed (the shrinker may take its targets away)
         let ntargets = match &sc.first.services.discovery.default.res {
             DiscRes::Targets(t) => t.len(),
